@@ -149,7 +149,7 @@ func checkC16(c *Ctx, r *Report) {
 				continue
 			}
 			// the bytes come from msg.GetDialRequest().GetAddrs()
-			if !derivesFrom(call.Common().Args[0], isCallResult(0, "(*"+an2+"/pb.DialRequest).GetAddrs")) {
+			if !derivesFrom(call.Common().Args[0], isFieldOrGetter(an2+"/pb.DialRequest.Addrs")) {
 				leavesOK = false
 			}
 			defCalls = append(defCalls, call.(ssa.Instruction))
@@ -389,6 +389,17 @@ func checkC16(c *Ctx, r *Report) {
 			}}
 			r5.mustPass(fn, serve+": accepted request passes defer CompleteRequest(p) before any exit", q, len(acceptTrue))
 		}
+		// ... and exactly once: after one completion of the request (deferred or called on the spot) no second one is
+		// reachable (a second completion frees the slot of another request of the same peer that is still being served)
+		isAnyComplete := func(in ssa.Instruction) bool {
+			ci, ok := in.(ssa.CallInstruction)
+			return ok && calleeKey(ci) == "(*"+an2+".rateLimiter).CompleteRequest"
+		}
+		comps := findInstrs(fn, isAnyComplete)
+		for _, c1 := range comps {
+			w, n := (&Cut{Fn: fn, From: []ssa.Instruction{c1}, Target: isAnyComplete}).Run(c)
+			r5.Check(w == "", serve+": a request is completed at most once", instrPos(c1), n+1, "", "the peer's in-flight counter drops twice for one request: more concurrent requests of that peer are served than configured", w)
+		}
 	}
 	// configuration reaches the limiter it is named for: each parameter of WithServerRateLimit is stored in its own
 	// settings field, and each settings field initialises its own limiter field
@@ -398,7 +409,9 @@ func checkC16(c *Ctx, r *Report) {
 		nOpt := 0
 		if f := r5.need(an2 + ".WithServerRateLimit"); f != nil {
 			for _, g := range append([]*ssa.Function{f}, allAnon(f)...) {
-				for _, in := range findInstrsIn(g, func(in ssa.Instruction) bool { _, ok := in.(*ssa.Store); return ok }) {
+				// (the stores may sit in a setter the option closure calls: its parameters are the closure's arguments)
+				for _, in := range findInstrs(g, func(in ssa.Instruction) bool { _, ok := in.(*ssa.Store); return ok }) {
+					enterScan(g)
 					st := in.(*ssa.Store)
 					fl, base := fieldAddrOf(st.Addr)
 					if fl == nil || fieldKeyOf(base, fl) != setT+"."+fl.Name() {
